@@ -13,6 +13,7 @@ CONSTANTS
   NGroups <- MC_NGroupsNone
   MutOps <- MC_MutOpsTwo
   Renames <- MC_RenamesNone
+  Reinserts <- MC_ReinsertsNone
   AsFound_AliasWhenNoCutoff = TRUE
   AsFound_PopOnStore = TRUE
   AsFound_BaseCsvDropsT = TRUE
